@@ -20,7 +20,7 @@ from harness.render import render
 CONST = "CONSTANTS\n  P <- RecP\n  Keys <- RecKeys\n  Univ <- RecUniv\n  Prsv0 <- RecPrsv\n  Edge0 <- RecEdge\n"
 CFG_T = "INIT TInit\nNEXT TNext\nINVARIANT Report\nCHECK_DEADLOCK FALSE\n" + CONST
 CFG_A = "INIT AInit\nNEXT ANext\nVIEW AView\nINVARIANT Confluent\nCHECK_DEADLOCK FALSE\n" + CONST
-SIZES = {"quick": {"layout": 14, "f1": 4, "f3": 2}, "thorough": {"layout": 500, "f1": 250, "f2": 100, "f3": 100}}
+SIZES = {"quick": {"layout": 14, "f1": 4, "f3": 2}, "thorough": {"layout": 200, "f1": 80, "f2": 40, "f3": 40}}
 POOL = {"layout": 150, "f1": 500, "f2": 250, "f3": 120}
 POOL_T = {"layout": 2000, "f1": 6000, "f2": 3000, "f3": 1200}
 MAX_ANY_BLOCKS = 11
